@@ -210,6 +210,17 @@ def _ap_binop(op, l, r):
             else:
                 return None
             return (a.parts[0],) + tuple(nums)
+        # ("elems", (v0, ..)): a short array of known numbers (a slice x[a:a+1] of a piecewise-constant array)
+        if isinstance(a.parts, tuple) and a.parts and a.parts[0] == "elems" and k.shape == () and k.has_const() and \
+                isinstance(k.const, (int, float)) and not isinstance(k.const, bool):
+            cst = k.const
+            if isinstance(op, ast.Add):
+                return ("elems", tuple(x + cst for x in a.parts[1]))
+            if isinstance(op, ast.Mult):
+                return ("elems", tuple(x * cst for x in a.parts[1]))
+            if isinstance(op, ast.Sub) and not swapped:
+                return ("elems", tuple(x - cst for x in a.parts[1]))
+            return None
     return None
 
 
@@ -445,6 +456,10 @@ def binop(I, fr, op, l, r, node):
             sign = S_NONPOS
     if sym is not None and kind != K_SCALAR:
         sym = None
+    if sym is not None and isinstance(op, (ast.Sub, ast.Add)) and getattr(I, "revfirst", None):
+        for at_, (key_, n_) in I.revfirst.items():
+            if at_ in sym.atoms() and sym + LinExpr(at_) == n_ - 1:
+                ext = ("hi", key_)            # len(mask) - 1 - argmax(mask reversed): the last True position
     return AV(kind=kind, dtype=dtype, origin=origin, shape=shape, sym=sym, alg=alg, sign=sign, mono=mono,
               const=c, expo=expo, tags=tags_of(l, r), indef=indef_of(l, r), f0=f0, ext=ext, parts=_ap_binop(op, l, r),
               note=pwnote if (pwnote is not None and c is _NOCONST) else
@@ -647,6 +662,10 @@ def subscript(I, fr, base, idx, node, quiet=False):
         if idx.has_const() and base.dvals is not None and idx.const in base.dvals:
             return base.dvals[idx.const]
         if base.elem is not None and not base.dvals:
+            if base.dmay is None and not idx.has_const():
+                # a computed key on a dictionary that may hold entries this run did not put there (a cache in an unknown state): the
+                # item read may be one of those
+                return join_av(base.elem, top_av(True, "item kept in the dictionary from before", I.atoms).replace(origin=frozenset(["?"])))
             return base.elem
         return top_av(True, "dict item", I.atoms)
     if base.kind == K_STR:
@@ -794,6 +813,13 @@ def subscript(I, fr, base, idx, node, quiet=False):
             parts_ = ("ap-tail", b.parts[1], b.parts[3])
         elif (lo_ is None or int_const(lo_) == 0) and st_ is None:
             parts_ = b.parts          # a leading segment of the progression is the same progression
+    if kind == K_ARRAY and len(comps) == 1 and comps[0] is not None and comps[0].kind == K_SLICE and comps[0].items is not None and \
+            isinstance(b.parts, tuple) and b.parts and b.parts[0] == "pconst":
+        lo_, up_, st_ = comps[0].items
+        a_ = int_const(lo_) if lo_ is not None else None
+        b_ = int_const(up_) if up_ is not None else None
+        if st_ is None and a_ is not None and b_ is not None and a_ >= 0 and b_ == a_ + 1:
+            parts_ = ("elems", (dict(b.parts[2]).get(a_, b.parts[1]),))
     note = None
     if len(comps) == 1 and int_const(comps[0]) == -1 and 0 in b.mono and kind == K_ARRAY:
         note = "lastof"
@@ -1366,9 +1392,44 @@ def _amplitude_int(I, x):
     return False
 
 
+_UFUNC_FORMS = {"numpy.add.accumulate": "numpy.cumsum", "numpy.add.reduce": "numpy.sum", "numpy.maximum.reduce": "numpy.max",
+                "numpy.minimum.reduce": "numpy.min", "numpy.cumulative_sum": "numpy.cumsum"}
+
+
+# leading positional parameter names (from the installed signatures) of the rows whose events the rules read by position
+LIB_SIG = {"numpy.interp": ("x", "xp", "fp"), "scipy.signal.resample": ("x", "num"), "numpy.where": ("condition", "x", "y"),
+           "numpy.take": ("a", "indices", "axis"), "numpy.insert": ("arr", "obj", "values", "axis"), "numpy.delete": ("arr", "obj", "axis"),
+           "numpy.put": ("a", "ind", "v"), "numpy.polyfit": ("x", "y", "deg"), "numpy.linspace": ("start", "stop", "num"),
+           "numpy.cumsum": ("a", "axis"), "numpy.diff": ("a", "n", "axis"), "numpy.ediff1d": ("ary", "to_end", "to_begin"),
+           "numpy.concatenate": ("arrays", "axis"), "numpy.sum": ("a", "axis"), "numpy.max": ("a", "axis"), "numpy.min": ("a", "axis"),
+           "numpy.fft.fft": ("a", "n", "axis"), "numpy.fft.ifft": ("a", "n", "axis"), "numpy.fft.rfft": ("a", "n", "axis"),
+           "scipy.fft.fft": ("x", "n", "axis"), "scipy.fftpack.fft": ("x", "n", "axis"),
+           "scipy.signal.butter": ("N", "Wn", "btype"), "scipy.signal.filtfilt": ("b", "a", "x"),
+           "scipy.integrate.cumulative_trapezoid": ("y", "x", "dx"), "scipy.integrate.cumtrapz": ("y", "x", "dx"),
+           "numpy.trapz": ("y", "x", "dx"), "numpy.clip": ("a", "a_min", "a_max"), "numpy.searchsorted": ("a", "v", "side"),
+           "numpy.tile": ("A", "reps"), "numpy.repeat": ("a", "repeats", "axis"), "numpy.full": ("shape", "fill_value"),
+           "numpy.argmax": ("a", "axis"), "numpy.argmin": ("a", "axis"), "numpy.abs": ("x",), "numpy.absolute": ("x",),
+           "numpy.roll": ("a", "shift", "axis"), "numpy.pad": ("array", "pad_width", "mode"), "numpy.flip": ("m", "axis"),
+           "numpy.outer": ("a", "b"), "numpy.dot": ("a", "b"), "numpy.mean": ("a", "axis")}
+
+
 def call_lib(I, fr, name, args, kwargs, node):
+    if name in _UFUNC_FORMS and name not in LIB:
+        # ufunc method forms: np.add.accumulate(x[, axis]) = np.cumsum(x, axis=0 by default), np.add.reduce(x[, axis]) = np.sum(x, axis=0 ...)
+        kwargs = dict(kwargs)
+        if len(args) < 2 and "axis" not in kwargs:
+            kwargs["axis"] = const_av(0)
+        name = _UFUNC_FORMS[name]
     I.stats["libcalls"] += 1
-    I.emit("lib-call", fr, node, name=name, args=list(args), kwargs={k: v for k, v in kwargs.items() if k != "__builtin__"})
+    # rules read the event's positional list: leading parameters passed by keyword are put in their positions there (the row below
+    # still receives the call as written)
+    ev_args = list(args)
+    for pn in LIB_SIG.get(name, ())[len(ev_args):]:
+        if pn in kwargs:
+            ev_args.append(kwargs[pn])
+        else:
+            break
+    I.emit("lib-call", fr, node, name=name, args=ev_args, kwargs={k: v for k, v in kwargs.items() if k != "__builtin__"})
     h = LIB.get(name)
     if h is None and name.startswith("numpy.ndarray."):
         h = LIB.get("numpy." + name.split(".")[-1])
@@ -1381,6 +1442,13 @@ def call_lib(I, fr, name, args, kwargs, node):
     # out=<array>: the result is written into the caller-visible storage of `out` (ufuncs and reductions alike); rows that
     # model it themselves return a value that already carries out's origin
     out = kwargs.get("out")
+    onode = next((k.value for k in getattr(node, "keywords", []) or [] if k.arg == "out"), None)
+    if out is not None and isinstance(onode, ast.Subscript) and isinstance(res, AV) and out.kind in (K_ARRAY, K_TOP) and \
+            not (res.origin and res.origin == out.origin):
+        # out=<a slice of an array>: exactly the store  base[slice] = result
+        tgt = ast.copy_location(ast.Subscript(value=onode.value, slice=onode.slice, ctx=ast.Store()), onode)
+        I.assign(tgt, res, fr, fr.cur_stmt if getattr(fr, "cur_stmt", None) is not None else node)
+        return res.replace(origin=out.origin)
     if out is not None and out.kind in (K_ARRAY, K_LIST, K_TOP) and isinstance(res, AV) and not (res.origin and res.origin == out.origin):
         keep = res.replace(origin=out.origin)
         I.mutate(fr, out, node, "out=", lambda a, keep=keep: keep.replace(shape=a.shape if a.shape is not None else keep.shape), strong=True,
@@ -1493,12 +1561,17 @@ def _zeros(C):
         fv = C.num(1, "fill_value")
         if fv is not None:
             sign = fv.sign
-            alg = {at: alg_lub(alg.get(at, CONST), fv.a(at)) for at in set(alg) | fv.atoms()}
+            alg = {at: fv.a(at) for at in set(alg) | fv.atoms()}         # every element IS the fill value
     if short == "empty":
         sign = S_ANY
     if alg and sign == S_ZERO:
         sign = S_ZERO
-    return AV(kind=K_ARRAY, dtype=dt, shape=shape, alg=alg, sign=sign, origin=C.fresh(),
+    pconst = None
+    if short == "full" and shape is not None and len(shape) == 1 and dt == "real":
+        fv = C.num(1, "fill_value")
+        if fv is not None and fv.has_const() and isinstance(fv.const, (int, float)) and not isinstance(fv.const, bool):
+            pconst = ("pconst", fv.const, ())      # piecewise constant: every element c except the listed leading ones
+    return AV(kind=K_ARRAY, dtype=dt, shape=shape, alg=alg, sign=sign, origin=C.fresh(), parts=pconst,
               tags=tags_of(*[a for a in C.args]) | frozenset(["alloc:" + short]), f0=(short == "zeros"),
               mono=axes_all(shape) if short in ("zeros", "ones") else frozenset(),
               note=("init", None, frozenset()) if short in ("ones", "empty", "full") else None)
@@ -1862,6 +1935,26 @@ LIB["numpy.median"] = _reduction(alg_maxred, lambda v: v.sign, tag="red:median",
 LIB["numpy.ptp"] = _reduction(alg_maxred, lambda v: S_NONNEG, tag="red:ptp", order=True)
 LIB["numpy.argmax"] = LIB["numpy.nanargmax"] = _reduction(alg_argorder, lambda v: S_NONNEG, tag="red:argmax", order=True,
                                                          dtype_f=lambda v: "int")
+_argmax_plain = LIB["numpy.argmax"]
+
+
+def _argmax(C):
+    """argmax of a 1-D boolean mask is the position of its first True (0 when there is none): the smallest index np.where(mask)[0]
+    would list; of the reversed mask it counts back from the end, and len - 1 - that is the largest index"""
+    res = _argmax_plain(C)
+    v = C.num(0)
+    if v is not None and v.kind == K_ARRAY and v.dtype == "bool" and v.shape is not None and len(v.shape) == 1 and res.kind == K_SCALAR:
+        if isinstance(v.note, tuple) and v.note and v.note[0] == "flip-of":
+            if res.sym is not None and len(res.sym.atoms()) == 1:
+                if not hasattr(C.I, "revfirst"):
+                    C.I.revfirst = {}
+                C.I.revfirst[next(iter(res.sym.atoms()))] = (v.note[1], v.note[2])
+        else:
+            res = res.replace(ext=("lo", tuple(sorted(v.origin))), tags=res.tags | frozenset(["sel:first"]))
+    return res
+
+
+LIB["numpy.argmax"] = _argmax
 LIB["numpy.argmin"] = LIB["numpy.nanargmin"] = _reduction(alg_argorder, lambda v: S_NONNEG, tag="red:argmin", order=True,
                                                          dtype_f=lambda v: "int")
 LIB["numpy.std"] = _reduction(alg_abs, lambda v: S_NONNEG, tag="red:std", dtype_f=lambda v: "real")
@@ -1889,7 +1982,14 @@ def _cumsum(C):
         ma = len(v.shape) + ax
     mono = frozenset([ma]) if (ma is not None and is_nonneg(v.sign)) else frozenset()
     dt = _dtype_of_arg(C.arg(2, "dtype")) or ("int" if v.dtype == "bool" else v.dtype)
-    res = AV(kind=K_ARRAY, dtype=dt, shape=shape, alg=dict(v.alg), sign=_sum_sign(v) if v.sign != S_POS else S_POS,
+    cparts = None
+    if isinstance(v.parts, tuple) and v.parts and v.parts[0] == "pconst" and v.shape is not None and len(v.shape) == 1 and \
+            all(k_ in (0, 1) for k_, _ in v.parts[2]):
+        c_ = v.parts[1]
+        ld = dict(v.parts[2])
+        v0, v1 = ld.get(0, c_), ld.get(1, c_)
+        cparts = ("ap", c_, v0, v0 + v1 - c_)      # running sum of [v0, v1, c, c, ...]: element k >= 1 is c*k + (v0 + v1 - c)
+    res = AV(kind=K_ARRAY, dtype=dt, shape=shape, alg=dict(v.alg), sign=_sum_sign(v) if v.sign != S_POS else S_POS, parts=cparts,
              mono=mono, origin=C.fresh(), tags=v.tags | frozenset(["quad:rectangle", "cum"]), indef=v.indef,
              f0=v.f0 and (v.shape is None or len(v.shape) == 1 or (ma is not None and v.shape is not None and ma == len(v.shape) - 1)))
     out = C.arg(3, "out")
@@ -2027,7 +2127,9 @@ def _part_desc(x):
 
 
 def _base_parts(v):
-    return v.parts if v.parts is not None else (("arr", v.tags),)
+    if v.parts is not None and v.parts and all(isinstance(x, tuple) and x and x[0] in ("const", "sym", "arr", "val") for x in v.parts):
+        return v.parts
+    return (("arr", v.tags),)
 
 
 @lib("numpy.insert", doc="fresh copy with values inserted before index obj along axis (flattened when axis None)")
@@ -2138,35 +2240,72 @@ def _concatenate(C):
         v = as_num(seq) if seq is not None else None
         return AV(kind=K_ARRAY, shape=None, origin=C.fresh(), alg=dict(v.alg) if v is not None else {},
                   tags=v.tags if v is not None else frozenset(), indef=True)
-    d = LinExpr(0)
     short = C.name.split(".")[-1]
-    for p in parts:
-        if d is None:
-            break
-        if p.shape is not None and len(p.shape) >= 1 and p.shape[0] is not None and short in ("concatenate", "hstack"):
-            d = d + p.shape[0]
-        else:
-            d = None
-    rest_ok = all(p.shape is not None and len(p.shape) == 1 for p in parts)
-    trailing = ()
-    ax = C.arg(1, "axis")
-    if not rest_ok and short == "concatenate" and (ax is None or int_const(ax) == 0) and parts and \
-            all(p.shape is not None and len(p.shape) == len(parts[0].shape) >= 1 for p in parts):
-        # N-D parts joined along the first axis: trailing dimensions are those of the parts (taken where known)
-        tr = []
-        for k in range(1, len(parts[0].shape)):
-            known = [p.shape[k] for p in parts if p.shape[k] is not None]
-            tr.append(known[0] if known and all(x == known[0] for x in known) else None)
-        trailing = tuple(tr)
-        rest_ok = True
+    shapes = [p.shape for p in parts]
+    if short == "vstack":                       # 1-D rows are promoted to (1, n)
+        shapes = [((ONE,) + tuple(sh)) if (sh is not None and len(sh) == 1) else sh for sh in shapes]
+    ja = None
+    ranks = {len(sh) for sh in shapes if sh is not None}
+    if all(sh is not None for sh in shapes) and len(ranks) == 1 and shapes:
+        r = ranks.pop()
+        if r >= 1:
+            if short == "concatenate":
+                ax = C.arg(1, "axis")
+                k = 0 if (ax is None or ax.kind == K_NONE) else int_const(ax)
+                ja = (k if k >= 0 else r + k) if k is not None else None
+            elif short == "hstack":
+                ja = 0 if r == 1 else 1
+            elif short == "vstack":
+                ja = 0
+    shape = None
+    if ja is not None and 0 <= ja < len(shapes[0]):
+        dims = []
+        for k in range(len(shapes[0])):
+            col = [sh[k] for sh in shapes]
+            if k == ja:
+                d = LinExpr(0)
+                for x in col:
+                    d = (d + x) if (d is not None and x is not None) else None
+                dims.append(d)
+            else:
+                known = [x for x in col if x is not None]
+                dims.append(known[0] if known and all(x == known[0] for x in known) else None)
+        shape = tuple(dims)
     sign = parts[0].sign if parts else S_ANY
     for p in parts[1:]:
         sign = sign_join(sign, p.sign)
-    return AV(kind=K_ARRAY, dtype=join_dtypes(parts) if parts else "real",
-              shape=((d,) + trailing) if rest_ok and short in ("concatenate", "hstack") and (d is not None or
-                                                                                             all(p.shape is not None for p in parts)) else None,
-              alg=alg_lub_many(parts), sign=sign,
-              origin=C.fresh(), tags=tags_of(*parts), indef=indef_of(*parts), f0=bool(parts) and parts[0].f0)
+    # a leading block of zeros in front of a non-negative array that is nondecreasing along the join axis: still nondecreasing, and
+    # (when the join axis is the last one) the first element along it is exactly zero -- the `initial=0` of a cumulative integral written out
+    mono = frozenset()
+    f0 = bool(parts) and parts[0].f0 and ja is not None and shape is not None and ja != len(shape) - 1
+    if ja is not None and len(parts) == 2 and parts[0].sign == S_ZERO and is_nonneg(parts[1].sign) and ja in parts[1].mono:
+        mono = frozenset([ja])
+    if ja is not None and shape is not None and ja == len(shape) - 1 and parts and (parts[0].sign == S_ZERO or parts[0].f0):
+        f0 = True
+    pieces = None
+    if shape is not None and len(shape) == 1:
+        pieces = ()
+        for p in parts:
+            pd = _part_desc(p) if p.shape == () else None
+            if p.shape is not None and len(p.shape) == 1 and p.shape[0] == ONE and p.has_const():
+                pd = ("const", p.const)
+            pieces = pieces + ((pd,) if pd is not None else _base_parts(p))
+    return AV(kind=K_ARRAY, dtype=join_dtypes(parts) if parts else "real", shape=shape, alg=alg_lub_many(parts), sign=sign, mono=mono,
+              origin=C.fresh(), tags=tags_of(*parts), indef=indef_of(*parts), f0=f0, parts=pieces)
+
+
+@lib("io.StringIO", "io.BytesIO", doc="in-memory file over a text: reading it (np.genfromtxt, .read()) sees that text")
+def _stringio(C):
+    t = C.arg(0)
+    return AV(kind=K_TOP, note="file", origin=frozenset(["lit"]), tags=(t.tags if t is not None else frozenset()))
+
+
+@lib("numpy.char.mod", "numpy.strings.mod", doc="element-wise `fmt % value`: an array of strings, one per element")
+def _charmod(C):
+    v = C.arg(1)
+    vn = as_num(v) if v is not None else None
+    return AV(kind=K_LIST, elem=AV(kind=K_STR, tags=tags_of(*C.args)), origin=C.fresh(), tags=tags_of(*C.args),
+              shape=vn.shape if vn is not None else None)
 
 
 @lib("numpy.pad", doc="fresh array extended by (before, after) constant values along the (single) axis")
@@ -2265,7 +2404,10 @@ def _put(C):
 @lib("numpy.flip", "numpy.flipud", "numpy.fliplr", doc="reversed view: linear, order reversed")
 def _flip(C):
     v = C.num(0)
-    return v.replace(mono=frozenset(), f0=False, const=_NOCONST, tags=v.tags | frozenset(["flip"]))
+    note = v.note
+    if v.kind == K_ARRAY and v.shape is not None and len(v.shape) == 1 and v.dtype == "bool":
+        note = ("flip-of", tuple(sorted(v.origin)), v.shape[0])       # a reversed mask: argmax of it counts back from the end
+    return v.replace(mono=frozenset(), f0=False, const=_NOCONST, tags=v.tags | frozenset(["flip"]), note=note)
 
 
 @lib("numpy.transpose", "numpy.swapaxes", "numpy.moveaxis")
@@ -2629,6 +2771,16 @@ def _tile(C):
               origin=C.fresh(), tags=tags_of(*[a for a in C.args]), indef=v.indef)
 
 
+@lib("operator.attrgetter", doc="callable reading one named attribute of its argument")
+def _attrgetter(C):
+    nm = C.arg(0)
+    if nm is None or not (nm.has_const() and isinstance(nm.const, str)) or len(C.args) != 1:
+        return C.top("attrgetter with a computed or multiple names")
+    name = nm.const
+    return AV(kind=K_FUNC, ref=("closure", lambda I2, fr, args, kwargs, node, name=name: I2.load_attr(fr, args[0], name, node) if args else
+                                top_av(True, "attrgetter without argument", I2.atoms)))
+
+
 @lib("numpy.nan_to_num", doc="replaces non-finite entries by constants")
 def _nan_to_num(C):
     v = C.num(0)
@@ -2641,6 +2793,18 @@ def _gradient(C):
     w = C.num(1) if len(C.args) > 1 else None
     alg = dict(v.alg) if w is None else alg2(v, w, alg_mul)
     shape = v.shape if C.name.endswith("gradient") else None
+    if not C.name.endswith("gradient") and w is not None and v.shape is not None and w.shape is not None and len(v.shape) == 1 and \
+            len(w.shape) == 1 and v.shape[0] is not None and w.shape[0] is not None:
+        md = C.arg(2, "mode")
+        mode = md.const if (md is not None and md.has_const()) else ("full" if C.name.endswith("convolve") else "valid")
+        n_, m_ = v.shape[0], w.shape[0]
+        if mode == "full":
+            shape = (n_ + m_ - 1,)
+        elif mode == "same":
+            # max(n, m) points: the longer operand decides -- NOT the first one
+            shape = (n_,) if n_ == m_ else (LinExpr("max[%r,%r]" % tuple(sorted([n_, m_], key=repr))),)
+        elif mode == "valid":
+            shape = (LinExpr("max[%r,%r]" % tuple(sorted([n_, m_], key=repr))) - LinExpr("min[%r,%r]" % tuple(sorted([n_, m_], key=repr))) + 1,)
     return AV(kind=K_ARRAY, dtype="real" if v.dtype in ("int", "bool") else v.dtype, shape=shape, alg=alg, origin=C.fresh(),
               tags=tags_of(v, w), indef=indef_of(v, w))
 
